@@ -6,7 +6,7 @@ tests), the demonstration, and meta.json. For every change a scratch worktree of
 created, the patch applied, and the property's check run with VERIF_REPO=<worktree>; exit 1 is
 expected. Results go to seeded/RESULTS.md and into each meta.json ("check_result").
 
-usage: seeded.py [--only id|*suffix] [--tier quick|thorough] [--also Cxx,Cyy]
+usage: seeded.py [--only id|Cxx|*suffix] [--tier quick|thorough] [--also Cxx,Cyy]
 """
 import argparse, json, os, shutil, subprocess, sys, time, hashlib
 VERIF = os.path.dirname(os.path.dirname(os.path.abspath(__file__)))
@@ -17,7 +17,7 @@ rows = []
 for d in sorted(os.listdir(root)):
     dd = os.path.join(root, d)
     if not os.path.isdir(dd) or not os.path.exists(os.path.join(dd, 'patch.diff')): continue
-    if a.only and a.only != d and not (a.only.startswith('*') and d.endswith(a.only[1:])): continue
+    if a.only and a.only != d and not d.startswith(a.only + '-') and not (a.only.startswith('*') and d.endswith(a.only[1:])): continue
     meta = json.load(open(os.path.join(dd, 'meta.json')))
     props = [meta['property']] + [p for p in a.also.split(',') if p] + meta.get('also_check', [])
     wt = '/tmp/verif-seeded-%s-%d' % (d, os.getpid())
@@ -33,7 +33,10 @@ for d in sorted(os.listdir(root)):
                                env=dict(os.environ, VERIF_REPO=wt))
             why = [''.join(ch if 32 <= ord(ch) < 127 else '?' for ch in l.strip()) for l in r.stdout.splitlines() if 'failing test' in l]
             res[p] = {'exit': r.returncode, 'seconds': round(time.time() - t0, 1), 'why': (why[0][:300] if why else '')}
-            rows.append((d, p, 'detected' if r.returncode == 1 else ('MISSED' if r.returncode == 0 else 'inconclusive(exit %d)' % r.returncode), '%.0fs' % (time.time() - t0), why[0][:200] if why else ''))
+            status = 'detected' if r.returncode == 1 else ('MISSED' if r.returncode == 0 else 'inconclusive(exit %d)' % r.returncode)
+            if meta.get('out_of_domain') and r.returncode == 0:
+                status = 'silent, as it should be (outside the quantifier)'
+            rows.append((d, p, status, '%.0fs' % (time.time() - t0), why[0][:200] if why else ''))
         meta['check_result'] = res
         json.dump(meta, open(os.path.join(dd, 'meta.json'), 'w'), indent=1)
     finally:
